@@ -94,7 +94,7 @@ def run_C11(ctx):
     drive_client(ctx, r.stdout_path, "reasons", "result,events", "whole,bytewise,mid", agg)
     # retry count is per run of consecutive failures (a successful connection starts a fresh run), and errors that merely look
     # like context errors (a transport's own deadline) while the request's context is alive are ordinary retryable errors
-    r = tlc_client(ctx, "ClientRuns", cfgs([1, 2]), [P, P + ["data", "COLON", "y"]], ["clean", "errctx"],
+    r = tlc_client(ctx, "ClientRuns", cfgs([1, 2]), [P, P + ["data", "COLON", "y"]], ["clean", "errctx", "errwrapeof", "cancel_eof"],
                    ["transport", "transport_ctx", "stream"], 4 if q else 5, False)
     drive_client(ctx, r.stdout_path, "runs", "result,events,waits", "whole", agg)
     r = tlc_client(ctx, "ClientBodyReset", cfgs([0, 1], body=("nil", "nobody", "getbody", "nogetbody", "failgetbody")), [P, P + ["data", "COLON", "y"]],
@@ -129,7 +129,7 @@ C10_BODIES = [[], EID1, EID7, EEMPTY, ENUL, ENOID, CUTID, PENDID, EID1 + ENOID, 
 def run_C10(ctx):
     agg = new_agg()
     q = ctx.quick
-    r = tlc_client(ctx, "ClientHeader", cfgs([0]), C10_BODIES, ["clean", "error"], ["transport", "stream"], 3 if q else 4, False)
+    r = tlc_client(ctx, "ClientHeader", cfgs([0]), C10_BODIES, ["clean", "error", "errwrapeof"], ["transport", "stream"], 3 if q else 4, False)
     drive_client(ctx, r.stdout_path, "header", "result,header,events", "whole,mid", agg)
     r = tlc_client(ctx, "ClientBody", cfgs([0, 2], body=("nil", "nobody", "getbody", "nogetbody", "failgetbody")),
                    [EID1, CUTID], ["clean", "error"], ["transport", "stream", "reject"], 3, False)
